@@ -23,3 +23,26 @@ package ops
 //@   ensures full: old(s.Skip) <= 0 && s.Limit > 0 && old(s.seen) >= s.Limit ==> !result && s.seen == old(s.seen) && s.Skip == old(s.Skip)
 //@   ensures limitKept: s.Limit == old(s.Limit)
 
+
+// AcyclicTraverseNodes, the candidate test (the closure installed as the plan's descent filter): a node that was a
+// candidate before - its id is already in the tested set - costs nothing: neither the skip/limit bookkeeping nor the
+// result set is touched, however often the traversal reaches it again. A node tested for the first time is recorded in
+// the tested set. Assumed of the caller's filters: they do not write the traversal's bookkeeping.
+//@ import graph "github.com/specterops/dawgs/graph"
+//@ import cardinality "github.com/specterops/dawgs/cardinality"
+//@ func (s graph.NodeSet) Add(nodes ...*graph.Node)
+//@   opaque
+//@   modifies contents(s)
+//@ func AcyclicTraverseNodes$2(ctx *TraversalContext, segment *graph.PathSegment) bool
+//@   requires ctx != nil && segment != nil && segment.Node != nil && testedBitmap != nil && implements(testedBitmap, Duplex) && allocated(cellof(testedBitmap))
+//@   nosafety
+//@   fparam descentFilter(ctx *TraversalContext, segment *graph.PathSegment) bool
+//@     nomod
+//@   endfparam
+//@   fparam nodeFilter(node *graph.Node) bool
+//@     nomod
+//@   endfparam
+//@   modifies ctx.LimitSkipTracker.Skip, ctx.LimitSkipTracker.seen, contents(nodes), setview(cellof(testedBitmap))
+//@   ensures revisitIsFree: old(segment.Node.ID in viewof(testedBitmap)) ==> ctx.LimitSkipTracker.Skip == old(ctx.LimitSkipTracker.Skip) && ctx.LimitSkipTracker.seen == old(ctx.LimitSkipTracker.seen) && (forall k graph.ID :: (k in nodes) == old(k in nodes))
+//@   ensures recorded: result ==> segment.Node.ID in viewof(testedBitmap)
+//@   ensures testedGrows: forall y uint64 :: old(y in viewof(testedBitmap)) ==> y in viewof(testedBitmap)
